@@ -4,7 +4,7 @@
     theorem carries the theorem itself (statement + proof term), so a claim cannot outlive its proof. *)
 From V Require Import Base.Util Gql.Ast Peg.Peg Gen.C07_grammar_gen C07.Builder C07.Model.
 From V Require Import C08.Model C08.Spec C08.SiteType C08.ProofsRender C08.ProofsEscape C08.ProofsShape C08.ProofsMerge.
-From V Require C03.Properties C12.Properties C13.Properties.
+From V Require C12.Properties.
 
 Inductive status :=
 | Proved (lemma : str) (P : Prop) (pf : P)     (* harmless for every input: theorem of this development *)
@@ -38,10 +38,10 @@ Local Notation F_ch := (s "crates/utils/src/chars.rs").
 
 (** shape sites of the builder: C08_builder_shapes_ok (ProofsShape.v) covers the executable-document half;
     the remaining ones are exercised by the malformed streams of C07 and C08 on every run *)
-Local Notation shape_op := (Proved (s "C08_builder_shapes_ok (executable documents) / C08_builder_shapes_ok_ts (the shared utilities on type-system documents)") _ (conj builder_shapes_ok builder_shapes_ok_ts)).
+Local Notation shape_op := (Proved (s "C08_builder_shapes_ok / C08_builder_shapes_ok_ts: the parser model never panics") _ (conj builder_shapes_ok builder_shapes_ok_ts)).
 Local Notation shape_ts := (Proved (s "C08_builder_shapes_ok_ts") _ builder_shapes_ok_ts).
-Local Notation unspread := (Known (s "unspread-fragment") _ C03.Properties.C03_unspread_fragment_refuted).
-Local Notation checked := (Tested (s "reachable only through a definition check_operation_document never validated (see the Known entries: unspread fragments); on documents whose fragments are all spread, 0 hits over every accepted document of the streams")).
+Local Notation unspread := (Tested (s "expect(Type system error): reachable only on documents check rejects -- since /repo c67e45e every fragment definition, spread or not, is validated; 0 hits over every accepted document of the streams, which keep generating the unspread-fragment faults")).
+Local Notation checked := (Tested (s "bookkeeping of deep_merge (the field found is the one just inserted; merged fields have one name): 0 hits over every accepted document of the streams")).
 
 Definition table : list (site * status) := [
   (mk_site F_main (s "run_cli") (s "unwrap") (s "") 1, Trusted (s "SimpleLogger::init fails only when a logger is already installed; run_cli runs once per process"));
@@ -74,20 +74,23 @@ Definition table : list (site * status) := [
   (mk_site F_ut (s "only_child") (s "panic") (s "Expected 1 child of {:?}, actual 0") 1, shape_op);
   (mk_site F_ut (s "to_pos") (s "sub") (s "column") 1, Trusted (s "pest's Pair::line_col is 1-based (LineIndex): column - 1 cannot underflow"));
   (mk_site F_ut (s "to_pos") (s "sub") (s "line") 1, Trusted (s "pest's Pair::line_col is 1-based (LineIndex): line - 1 cannot underflow"));
-  (mk_site F_val (s "build_string_value") (s "expect") (s "Invalid character code") 2, Known (s "unicode-escape") _ escape_total_refuted);
+  (mk_site F_val (s "build_string_value") (s "panic") (s "Invalid character code '{}'") 1, Guarded (s "the string was decoded by validate_string_values (parser/mod.rs) with the same decode_string_characters before building: C08_builder_shapes_ok") _ builder_shapes_ok);
   (mk_site F_val (s "build_string_value") (s "panic") (s "Unexpected rule as a child of StringValue: {:?}") 1, shape_op);
-  (mk_site F_val (s "build_string_value") (s "panic") (s "Unexpected rule {:?}") 1, shape_op);
-  (mk_site F_val (s "build_string_value") (s "panic") (s "Unknown escape sequence '{}'") 1, shape_op);
-  (mk_site F_val (s "build_string_value") (s "split_at") (s "") 3, shape_op);
+  (mk_site F_val (s "build_string_value") (s "split_at") (s "") 2, shape_op);
   (mk_site F_val (s "build_string_value") (s "sub") (s "") 1, shape_op);
-  (mk_site F_val (s "build_string_value") (s "unwrap") (s "") 3, Known (s "unicode-escape (from_str_radix overflow; the third unwrap, chars().next(), is a shape site)") _ escape_total_refuted);
   (mk_site F_val (s "build_value") (s "panic") (s "Unexpected rule {:?} as a child of BooleanValue") 1, shape_op);
   (mk_site F_val (s "build_value") (s "panic") (s "Unexpected rule {:?} as a child of Value") 1, shape_op);
+  (mk_site F_val (s "decode_string_characters") (s "panic") (s "Unexpected rule {:?}") 1, shape_op);
+  (mk_site F_val (s "decode_string_characters") (s "panic") (s "Unknown escape sequence '{}'") 1, shape_op);
+  (mk_site F_val (s "decode_string_characters") (s "split_at") (s "") 1, shape_op);
+  (mk_site F_val (s "decode_string_characters") (s "sub") (s "leading") 1, Proved (s "surrogate_sub_ok: taken under (0xd800..=0xdbff).contains") _ surrogate_sub_ok);
+  (mk_site F_val (s "decode_string_characters") (s "sub") (s "trailing") 1, Proved (s "surrogate_sub_ok: taken under (0xdc00..=0xdfff).contains") _ surrogate_sub_ok);
+  (mk_site F_val (s "decode_string_characters") (s "unwrap") (s "") 1, shape_op);
   (mk_site F_pm (s "from") (s "sub") (s "column") 2, Trusted (s "pest's error line/column are 1-based"));
   (mk_site F_pm (s "from") (s "sub") (s "line") 2, Trusted (s "pest's error line/column are 1-based"));
-  (mk_site F_js (s "print_fragment_runtime") (s "expect") (s "fragment not found") 1, Known (s "fragment not found: unspread-fragment / undefined-fragment-spread (loader)") _ C12.Properties.C12_undefined_spread_panics_refuted);
+  (mk_site F_js (s "print_fragment_runtime") (s "expect") (s "fragment not found") 1, Guarded (s "C12_fragment_runtime_exact (guard: every fragment reachable from the fragment is defined -- check validates every fragment definition since c67e45e; the loader tests it itself since 539df4b)") _ C12.Properties.C12_fragment_runtime_exact);
   (mk_site F_js (s "print_fragment_runtime") (s "index") (s "this_document") 1, NoPanic (s "full-range slice &v[..]"));
-  (mk_site F_js (s "print_operation_runtime") (s "expect") (s "fragment not found") 1, Guarded (s "C12_operation_runtime_exact (guard: every fragment reachable from the operation is defined -- a passing check guarantees it for operations; the loader runs no check: C12_operation_runtime_panics)") _ C12.Properties.C12_operation_runtime_exact);
+  (mk_site F_js (s "print_operation_runtime") (s "expect") (s "fragment not found") 1, Guarded (s "C12_operation_runtime_exact (guard: every fragment reachable from the operation is defined -- a passing check guarantees it; the loader tests it itself since 539df4b)") _ C12.Properties.C12_operation_runtime_exact);
   (mk_site F_js (s "print_operation_runtime") (s "index") (s "this_document") 1, NoPanic (s "full-range slice &v[..]"));
   (mk_site F_dm (s "deep_merge_selection_tree") (s "expect") (s "field was just inserted") 1, checked);
   (mk_site F_dm (s "merge_fields") (s "assert") (s "Cannot merge fields of different names") 1, checked);
@@ -99,6 +102,5 @@ Definition table : list (site * status) := [
   (mk_site F_tp (s "generate_branching_conditions") (s "expect") (s "Type system error") 2, unspread);
   (mk_site F_tp (s "generate_branching_conditions") (s "panic") (s "Type system error") 1, unspread);
   (mk_site F_tp (s "get_fields_for_selection_set") (s "expect") (s "Type system error") 4, unspread);
-  (mk_site F_imp (s "resolve_operation_imports_rec") (s "expect") (s "missing target not found") 1, Known (s "duplicate-import-target (guarded otherwise: C13_no_panic)") _ C13.Properties.C13_dup_target_refuted);
   (mk_site F_ch (s "skip_chars") (s "split_at") (s "") 1, Proved (s "skip_chars_total") _ skip_chars_total)
 ].
